@@ -35,6 +35,7 @@ ASSUMPTIONS = [
 
 FEAT = gen.feat(
     p_proto=0.4,
+    p_kw=0.35,
     ann={"c": 5, "o": 1, "u": 3, "i": 1.5, "d": 1.2, "x": 0.7, "h": 0.7, "ph": 0.5, "ss": 0.4,
          "w": 0.25},
     bodies={"leaf": 4, "next": 3, "rec": 0.8, "fnext": 0.3, "next2": 0.2, "rec_next": 0.3},
@@ -372,8 +373,8 @@ def jobs(tier, seed):
     nconfig = NCONFIG[tier]
     rng = random.Random(seed * 7919 + 13)
     if tier == "quick":
-        for i in range(0, 2000, 20):
-            yield {"kind": "seeded", "seed": seed, "index": i, "count": 20, "nconfig": nconfig}
+        for i in range(0, 4000, 25):
+            yield {"kind": "seeded", "seed": seed, "index": i, "count": 25, "nconfig": nconfig}
         for e in range(8):
             yield {"kind": "env", "seed": seed, "indices": list(range(e * 5, e * 5 + 40)),
                    "env": {"hashseed": rng.randrange(1, 100000), "prealloc": rng.randrange(0, 400)}}
